@@ -96,12 +96,12 @@ def run(ctx):
             elif e["res"] != "error":
                 distinct.add(("b", k, e["in"]))
     for k in KINDS:
-        require(rt_obj.get(k, 0) > 20, "hardly any round trip of kind %s completed" % k)
+        require(rt_obj.get(k, 0) > 20, "hardly any round trip of kind %s completed" % k, ctx=ctx)
         require(parse_res.get(k, {}).get("object", 0) > 5 and parse_res.get(k, {}).get("error", 0) > 5,
-                "parser of kind %s: object/error classes not both seen (%s)" % (k, parse_res.get(k)))
-    require(prod > 50 and nonprod > 5, "producible / arbitrary header values not both exercised (%d, %d)" % (prod, nonprod))
-    require(len(classes_seen) > 200, "few field classes instantiated (%d)" % len(classes_seen))
-    require(events == nev, "events judged (%d) != events recorded (%d)" % (events, nev))
+                "parser of kind %s: object/error classes not both seen (%s)" % (k, parse_res.get(k)), ctx=ctx)
+    require(prod > 50 and nonprod > 5, "producible / arbitrary header values not both exercised (%d, %d)" % (prod, nonprod), ctx=ctx)
+    require(len(classes_seen) > 200, "few field classes instantiated (%d)" % len(classes_seen), ctx=ctx)
+    require(events == nev, "events judged (%d) != events recorded (%d)" % (events, nev), ctx=ctx)
     coverage = {
         "evaluations": events,
         "distinct_nontrivial": len(distinct),
